@@ -4,8 +4,8 @@
    (evaluated in Coq) and an oracle; the echo of sequence numbers is C05_one_answer. *)
 From Coq Require Import ZArith List Bool.
 Import ListNotations.
-Require Import AV.Generated.ExnOrder AV.Generated.SmppConsts AV.Model.Base AV.Model.Codec AV.Model.Split AV.Model.TimeFmt AV.Model.Pdu AV.Model.Wire
-               AV.Proofs.WireDisciplineProofs.
+Require Import AV.Generated.ExnOrder AV.Generated.SmppConsts AV.Model.Base AV.Model.Codec AV.Model.Split AV.Model.TimeFmt AV.Model.Pdu AV.Model.Wire AV.Model.Recv AV.Model.RecvActions
+               AV.Proofs.WireDisciplineProofs AV.Proofs.RecvActionsProofs.
 Open Scope Z_scope.
 
 (* every PDU the library builds carries its own length, so whatever tasks write and however they interleave, an independent
@@ -33,6 +33,22 @@ Theorem C15_modes :
   /\ mode_command BindMode_RECEIVER = SmppCommand_BIND_RECEIVER /\ mode_state BindMode_RECEIVER = SmppSessionState_BOUND_RX
   /\ mode_command BindMode_TRANSCEIVER = SmppCommand_BIND_TRANSCEIVER /\ mode_state BindMode_TRANSCEIVER = SmppSessionState_BOUND_TRX.
 Proof. exact modes_table. Qed.
+
+(* every PDU the receiver has read (whose parsing does not end in an exception outside the model, cf. C05) is handed to the received
+   hook exactly once - also when the connection fails at the moment its answer is written (any of the writes of its handling may
+   fail, independently): Model/RecvActions.v, whose order facts the translator reads off _receive_data / _handle_request *)
+Theorem C15_handed_over_exactly_once :
+  forall default pdu h ok,
+  (forall e, rx_out (react default pdu h) <> ORaise e) ->
+  hook_calls (actions (react default pdu h)) ok 0 = 1%nat.
+Proof. exact handed_over_exactly_once. Qed.
+
+(* the answer to a parsed request (deliver_sm, enquire_link, unbind) is written only after the received hook returned *)
+Theorem C15_answer_after_hook :
+  forall default pdu h,
+  rx_parsed (react default pdu h) = true -> (forall e, rx_out (react default pdu h) <> ORaise e) ->
+  hook_precedes_writes (actions (react default pdu h)) = true.
+Proof. exact parsed_answered_after_hook. Qed.
 
 Example C15_nonvacuous :
   let b := [0;0;0;16; 0;0;0;9; 0;0;0;0; 0;0;0;1] in
